@@ -48,6 +48,7 @@ type World struct {
 	PureGlobs []string
 	RepoDir   string
 	allPkgs   []*types.Package
+	direct    map[string]*directSummary
 	Errors    []string
 }
 
